@@ -178,6 +178,7 @@ class Checker:
         used = [False] * ni
         pairs = []
         un_ref = []
+        undecided_impl = set()       # rows whose comparison the solver could not decide: never reported as verdicts
         for j in range(nr):
             kind = ref['z'][j][0]
             found = None
@@ -202,6 +203,7 @@ class Checker:
                     if dist <= 1e-3:
                         cands.append((dist, i, sgn))
             cands.sort()
+            undecided = False
             # exact-fingerprint candidates first; then (ill-conditioned float evaluation) up to 3 near misses
             tried_far = 0
             for dist, i, sgn in cands:
@@ -222,15 +224,18 @@ class Checker:
                 if r != 'sat':
                     if not isfar:
                         self.inconclusive.append({'label': ref['z'][j][2], 'why': 'solver ' + r})
+                        undecided_impl.add(i)
+                        undecided = True
                 else:
                     self._last_model = (ref['z'][j][2], impl['z'][i][2], self.model_point(m) if m else None)
             if found is None:
-                un_ref.append(j)
+                if not undecided:
+                    un_ref.append(j)
             else:
                 used[found] = True
                 pairs.append((j, found))
                 self.proved.append(ref['z'][j][2])
                 if self._vars(ref['z'][j][1]):
                     self.nontrivial.add(ref['z'][j][2])
-        un_impl = [i for i in range(ni) if not used[i]]
+        un_impl = [i for i in range(ni) if not used[i] and i not in undecided_impl]
         return pairs, un_ref, un_impl
